@@ -2,8 +2,9 @@
    Statements only.  Specification: CsvSpec.v (render = the RFC 4180 grammar in generative form, indexed by the free
    choices: escaped or not per field, LF or CRLF per record, final line break or not; rfc_parse = its reference
    parser).  Model of the code as it is now: CsvModel.v (after fix: 598f817 F21, e6b2b49 F24, c131fe5 F23, 04a3ed1 F25).
-   Two statements are still false of the code (F18, F22): the full statement stays as a Definition in CsvProofs.v,
-   repeated in the comment, with T_..._refuted and a theorem that says what happens instead on the whole class. *)
+   One statement is still false of the code (F22, a table without rows): the full statement stays as a Definition in
+   CsvProofs.v, repeated in the comment, with T_..._refuted and a theorem that says what happens instead on the whole
+   class.  F18 (rows of different widths => std::terminate) was repaired by 0a28cd4; its statement is now proved. *)
 From BS Require Import Base CsvSpec CsvSpecProofs CsvSpecComplete CsvModel CsvWriterProofs CsvReaderProofs CsvStreamProofs CsvTotalProofs CsvStreamTotal CsvProofs.
 Local Open Scope N_scope.
 
